@@ -3,7 +3,7 @@
 # like mutant.sh, but in a scratch worktree of /repo (/tmp/numqi-wtm) so that /repo itself - which background runs read - is not touched.
 # With '-' as the file the second argument is a patch file applied with git apply.
 pid=$1; expr=$2; file=$3
-WT=/tmp/numqi-wtm
+WT=${NUMQI_WTM:-/tmp/numqi-wtm}
 if [ ! -d $WT ]; then git -C /repo worktree add --detach $WT HEAD >/dev/null 2>&1 && cp /repo/python/numqi/_version.py $WT/python/numqi/_version.py; fi
 git -C $WT checkout -q --detach $(git -C /repo rev-parse HEAD) 2>/dev/null; git -C $WT checkout -q -- . 
 if [ "$file" = "-" ]; then git -C $WT apply "$expr" || { echo "PATCH DID NOT APPLY"; exit 3; }
